@@ -171,10 +171,13 @@ static void runPar(bool hints, int n, uint64_t seed, int sw, const std::vector<s
 int main() {
     using Plain = Tree<btree_set<Key, detail::comparator<Key>, std::allocator<Key>, BLOCK>>;
     using Del = Tree<btree_delete_set<Key, detail::comparator<Key>, std::allocator<Key>, BLOCK>>;
+    // wider nodes (6 keys): borrowing from a sibling shifts several keys / children, which 3-key nodes never do
+    using Plain6 = Tree<btree_set<Key, detail::comparator<Key>, std::allocator<Key>, BLOCK + 24>>;
+    using Del6 = Tree<btree_delete_set<Key, detail::comparator<Key>, std::allocator<Key>, BLOCK + 24>>;
     std::string line;
     while (std::getline(std::cin, line)) {
         if (line == "maxkeys") {
-            std::cout << Plain::maxKeys() << " " << Del::maxKeys() << "\n";
+            std::cout << Plain::maxKeys() << " " << Del::maxKeys() << " " << Plain6::maxKeys() << " " << Del6::maxKeys() << "\n";
             continue;
         }
         std::stringstream ls(line);
@@ -184,6 +187,10 @@ int main() {
         if (mode == "seq") {
             if (kind == "plain")
                 runSeq<Plain, false>(hints, ls);
+            else if (kind == "plain6")
+                runSeq<Plain6, false>(hints, ls);
+            else if (kind == "delete6")
+                runSeq<Del6, true>(hints, ls);
             else
                 runSeq<Del, true>(hints, ls);
         } else if (mode == "par") {
@@ -206,6 +213,10 @@ int main() {
             keys.resize(n);
             if (kind == "plain")
                 runPar<Plain>(hints, n, seed, sw, keys);
+            else if (kind == "plain6")
+                runPar<Plain6>(hints, n, seed, sw, keys);
+            else if (kind == "delete6")
+                runPar<Del6>(hints, n, seed, sw, keys);
             else
                 runPar<Del>(hints, n, seed, sw, keys);
         }
